@@ -1,0 +1,63 @@
+//go:build verif
+
+// verif_hooks_ratelimit.go: read-only accessors into the rate limiters for the external
+// verification harness (/verif, properties C18/C19). Compiled only with -tags verif; adds no
+// behaviour to the package.
+package absnfs
+
+// VerifGlobalTokens returns the global bucket's level after a virtual refill.
+func (rl *RateLimiter) VerifGlobalTokens() float64 { return rl.globalLimiter.Tokens() }
+
+// VerifIPTokens returns the level of the per-IP bucket of ip, if it exists.
+func (rl *RateLimiter) VerifIPTokens(ip string) (float64, bool) { return rl.perIPLimiter.VerifTokens(ip) }
+
+// VerifConnTokens returns the level of the per-connection bucket of connID, if it exists.
+func (rl *RateLimiter) VerifConnTokens(connID string) (float64, bool) {
+	v, ok := rl.perConnectionLimiter.Load(connID)
+	if !ok {
+		return 0, false
+	}
+	return v.(*TokenBucket).Tokens(), true
+}
+
+// VerifOpTokens returns the level of the per-operation bucket of (ip, op), if it exists.
+func (rl *RateLimiter) VerifOpTokens(ip string, op OperationType) (float64, bool) {
+	pol := rl.perOperationLimiter
+	pol.mu.RLock()
+	defer pol.mu.RUnlock()
+	m, ok := pol.limiters[ip]
+	if !ok {
+		return 0, false
+	}
+	b, ok := m[op]
+	if !ok {
+		return 0, false
+	}
+	return b.Tokens(), true
+}
+
+// VerifBucketCounts returns how many per-IP buckets and per-operation address entries are live.
+func (rl *RateLimiter) VerifBucketCounts() (perIP int, perOpIPs int) {
+	rl.perOperationLimiter.mu.RLock()
+	perOpIPs = len(rl.perOperationLimiter.limiters)
+	rl.perOperationLimiter.mu.RUnlock()
+	return rl.perIPLimiter.VerifLen(), perOpIPs
+}
+
+// VerifLen returns the number of live buckets of a per-IP limiter.
+func (pl *PerIPLimiter) VerifLen() int {
+	pl.mu.RLock()
+	defer pl.mu.RUnlock()
+	return len(pl.limiters)
+}
+
+// VerifTokens returns the level of the bucket of ip, if it exists.
+func (pl *PerIPLimiter) VerifTokens(ip string) (float64, bool) {
+	pl.mu.RLock()
+	defer pl.mu.RUnlock()
+	b, ok := pl.limiters[ip]
+	if !ok {
+		return 0, false
+	}
+	return b.Tokens(), true
+}
